@@ -38,6 +38,9 @@ def run(chk):
     for i, c in enumerate(s5.sample_cases(cx, 4 if quick else 40, chk.seed + 11, max_cost=25 if quick else 200)):
         items.append({"case": c, "seed": chk.seed * 100003 + 500 + i, "scalar": "complex128", "ninputs": 1 if quick else 2,
                       "label": s5.case_label(c) + "|complex128"})
+    # S7: the table pipeline (clamp / classify / compress / dedupe / access) with injected tables, cell scope
+    from .. import s7
+    chk.add(s7=s7.run_tables(chk, "cell"))
     recs = s5.run_items(chk, items, nworkers=4 if quick else 6)
     nz = s5.report(chk, items, recs)
     chk.add(distinct_nontrivial=len(nz),
